@@ -523,7 +523,17 @@ def _r05j_spans(cfg, e: ast.AST, at, depth: int = 0, seen=None):
             for n in walk_local(f):
                 if isinstance(n, ast.Call) and isinstance(n.func, ast.Attribute) and isinstance(n.func.value, ast.Name) and n.func.value.id == e.id and n.func.attr in ("extend", "append", "insert") and n.args and id(n) not in seen:
                     seen.add(id(n))
-                    yield from _r05j_spans(cfg, n.args[-1], cfg.stmt_of(n), depth + 1, seen)
+                    a = n.args[-1]
+                    ast_ = cfg.stmt_of(n)
+                    os_ = origins(cfg, a, ast_) if isinstance(a, ast.Name) and n.func.attr != "extend" else []
+                    if len(os_) == 1 and os_[0].kind == "for" and not os_[0].path and isinstance(os_[0].stmt, ast.For):
+                        # ``for x in span: [if not x.is_meta:] xs.append(x)``: the loop spelling of the comprehension below
+                        conds = [(norm(x), pol) for x, pol in cfg.conditions(ast_) if a.id in {y.id for y in ast.walk(x) if isinstance(y, ast.Name)}]
+                        if any((not pol and t.endswith(".is_meta")) or (pol and (".is_type(" in t or t.endswith(".is_code"))) for t, pol in conds):
+                            continue
+                        yield from _r05j_spans(cfg, os_[0].stmt.iter, os_[0].stmt, depth + 1, seen)
+                        continue
+                    yield from _r05j_spans(cfg, a, ast_, depth + 1, seen)
                 if isinstance(n, ast.AugAssign) and isinstance(n.target, ast.Name) and n.target.id == e.id and id(n) not in seen:
                     seen.add(id(n))
                     yield from _r05j_spans(cfg, n.value, n, depth + 1, seen)
@@ -616,14 +626,67 @@ def _r05j_spans(cfg, e: ast.AST, at, depth: int = 0, seen=None):
         return
 
 
-# (file, function, span text) -> (backing check, reason).  A span listed here is re-verified on every run by the
-# named grammar check; it is not a suppression by position.
+def _r05j_resolve(cfg, e, at):
+    """``e`` read through single-definition locals, with ``.get()`` (the one segment of a Segments) peeled."""
+    for _ in range(8):
+        if isinstance(e, ast.Name):
+            os_ = origins(cfg, e, at)
+            if len(os_) == 1 and os_[0].kind == "expr" and not os_[0].path and isinstance(os_[0].expr, ast.AST) and not isinstance(os_[0].expr, ast.Name):
+                e, at = os_[0].expr, (os_[0].stmt if os_[0].stmt is not None else at)
+                continue
+            return e, at
+        if isinstance(e, ast.Call) and last_attr(e) == "get" and not e.args and not e.keywords and isinstance(e.func, ast.Attribute):
+            e = e.func.value
+            continue
+        return e, at
+    return e, at
+
+
+def _r05j_span_bounds(c):
+    """{start_seg, stop_seg} of a purely positional ``<recv>.select(start_seg=.., stop_seg=..)``, else None."""
+    if not (isinstance(c, ast.Call) and last_attr(c) == "select" and isinstance(c.func, ast.Attribute)) or c.args:
+        return None
+    kws = {k.arg: k.value for k in c.keywords}
+    if None in kws or not kws or set(kws) - {"start_seg", "stop_seg"}:
+        return None
+    return kws
+
+
+def _r05j_when_else_gap(cfg, node, at) -> bool:
+    """``node`` is a positional sub-span of ``X.select(start_seg=<X.last(is_type('when_clause'))>, stop_seg=<the
+    is_type('else_clause') element of X>)``: siblings between the last WHEN clause and the ELSE clause of one node.
+    Matched on what the locals hold, not on their names."""
+    if _r05j_span_bounds(node) is None:
+        return False
+    outer, oat = _r05j_resolve(cfg, node.func.value, at)
+    kws = _r05j_span_bounds(outer)
+    if kws is None or set(kws) != {"start_seg", "stop_seg"}:
+        return False
+
+    def picked(e, methods, typ):
+        c, cat = _r05j_resolve(cfg, e, oat)
+        if not (isinstance(c, ast.Call) and isinstance(c.func, ast.Attribute) and c.func.attr in methods and len(c.args) == 1 and not c.keywords):
+            return None
+        a = c.args[0]
+        if not (isinstance(a, ast.Call) and last_attr(a) == "is_type" and len(a.args) == 1 and not a.keywords and isinstance(a.args[0], ast.Constant) and a.args[0].value == typ):
+            return None
+        return _r05j_resolve(cfg, c.func.value, cat)[0]
+
+    recv = _r05j_resolve(cfg, outer.func.value, oat)[0]
+    first = picked(kws["start_seg"], ("last",), "when_clause")
+    last = picked(kws["stop_seg"], ("select", "first", "last"), "else_clause")
+    return first is not None and first is recv and last is recv
+
+
+# (file, function) -> [(span matcher, backing check, reason)].  A span recognised here is re-verified on every run by
+# the named grammar check; it is matched on what the span is built from (not on its text or position).
 R05J_REVIEWED = {
-    ("rules/structure/ST04.py", "Rule_ST04._eval", "case1_to_delete.select(stop_seg=case1_to_delete.get(after_last_comment_index))"): (
+    ("rules/structure/ST04.py", "Rule_ST04._eval"): [(
+        _r05j_when_else_gap,
         "case_no_meta_between_when_and_else",
         "a prefix of the siblings between the last WHEN clause and the ELSE clause of a case_expression: every dialect's CaseExpressionSegment puts its Indent before the WHEN "
         "clauses and its Dedent after the ELSE clause, so only whitespace / newlines / comments lie in between",
-    ),
+    )],
 }
 
 
@@ -672,8 +735,8 @@ def _r05j(chk) -> None:
         spans = list(_r05j_spans(cfg, s.arg, st))
         q = qualname(s.f)
         for node, what in spans:
-            key = (s.m.relpath.replace("src/sqlfluff/", "", 1), q, norm(node))
-            rev = R05J_REVIEWED.get(key)
+            key = (s.m.relpath.replace("src/sqlfluff/", "", 1), q)
+            rev = next((r[1:] for r in R05J_REVIEWED.get(key, []) if r[0](cfg, node, cfg.stmt_of(node) or st)), None)
             if rev is not None:
                 bad = _R05J_BACKING[rev[0]](repo)
                 if bad is None:
@@ -2232,5 +2295,54 @@ VARIANTS = [
         "                    if moved_segments or add_newline:\n",
         "                    if add_newline or len(moved_segments) > 0:\n",
         "QUIET", None, "R05h: disjuncts swapped, emptiness spelled with len",
+    ),
+    # R05j re-spellings: behaviour-preserving refactors: must stay quiet
+    Variant(
+        "quiet-r05j-st04-span-local-renamed", "src/sqlfluff/rules/structure/ST04.py",
+        "case1_to_delete", "case1_gap",
+        "QUIET", None, "R05j: the local holding the WHEN..ELSE gap renamed (the reviewed span is matched on what it is built from)", count=6,
+    ),
+    Variant(
+        "quiet-r05j-st04-span-bounds-through-locals", "src/sqlfluff/rules/structure/ST04.py",
+        "        case1_comments_to_restore = case1_to_delete.select(\n            stop_seg=case1_to_delete.get(after_last_comment_index)\n        )\n",
+        "        restore_stop = case1_to_delete.get(after_last_comment_index)\n        gap = case1_to_delete\n        case1_comments_to_restore = gap.select(stop_seg=restore_stop)\n",
+        "QUIET", None, "R05j: the stop segment and the receiver of the reviewed span each through one more local",
+    ),
+    Variant(
+        "quiet-r05j-lt09-filter-as-explicit-loop", "src/sqlfluff/rules/layout/LT09.py",
+        '                    moved_segments = [\n                        seg for seg in move_after_select_clause if not seg.is_meta\n                    ]\n',
+        "                    moved_segments = []\n                    for moved in move_after_select_clause:\n                        if moved.is_meta:\n                            continue\n                        moved_segments.append(moved)\n",
+        "QUIET", None, "R05j: the meta filter as a loop with an early continue",
+    ),
+    Variant(
+        "quiet-r05j-lt09-filter-as-select-predicate", "src/sqlfluff/rules/layout/LT09.py",
+        '                    moved_segments = [\n                        seg for seg in move_after_select_clause if not seg.is_meta\n                    ]\n',
+        "                    moved_segments = list(\n                        move_after_select_clause.select(select_if=sp.not_(sp.is_meta()))\n                    )\n",
+        "QUIET", None, "R05j: the meta filter as a Segments.select predicate",
+    ),
+    Variant(
+        "quiet-r05j-cv07-lifted-lists-as-displays", "src/sqlfluff/rules/convention/CV07.py",
+        "                    fixes.append(LintFix.create_before(parent, list(leading)))\n",
+        "                    lifted_before = [*leading]\n                    fixes.append(LintFix.create_before(anchor_segment=parent, edit_segments=lifted_before))\n",
+        "QUIET", None, "R05j: list(x) spelled [*x], through a local, arguments by keyword",
+    ),
+    # breaking twins in the same spellings
+    Variant(
+        "r05j-twin-st04-span-starts-at-the-first-when", "src/sqlfluff/rules/structure/ST04.py",
+        "        case1_to_delete = case1_children.select(\n            start_seg=case1_last_when, stop_seg=case1_else_clause_seg\n        )\n",
+        "        case1_to_delete = case1_children.select(\n            start_seg=case1_first_case, stop_seg=case1_else_clause_seg\n        )\n",
+        "R05j", "Rule_ST04._eval", "the re-created span now starts at CASE: the Indent before the WHEN clauses lies inside it",
+    ),
+    Variant(
+        "r05j-twin-lt09-explicit-loop-without-the-filter", "src/sqlfluff/rules/layout/LT09.py",
+        '                    moved_segments = [\n                        seg for seg in move_after_select_clause if not seg.is_meta\n                    ]\n',
+        "                    moved_segments = []\n                    for moved in move_after_select_clause:\n                        moved_segments.append(moved)\n",
+        "R05j", "Rule_LT09._eval_single_select_target_element", "loop spelling, filter dropped",
+    ),
+    Variant(
+        "r05j-twin-lt09-select-predicate-admits-metas", "src/sqlfluff/rules/layout/LT09.py",
+        '                    moved_segments = [\n                        seg for seg in move_after_select_clause if not seg.is_meta\n                    ]\n',
+        "                    moved_segments = list(\n                        move_after_select_clause.select(select_if=sp.or_(sp.is_meta(), sp.is_code()))\n                    )\n",
+        "R05j", "Rule_LT09._eval_single_select_target_element", "select spelling, predicate lets metas through",
     ),
 ]
